@@ -1296,7 +1296,23 @@ def _sh_rad2deg(x, *a, **kw):
 
 def _sh_divide(x, y, *a, **kw):
     if symbolic_active() and (is_sym(x) or is_sym(y)):
-        return _elementwise(lambda u, v: wrap(u) / v, x, y)
+        res = _elementwise(lambda u, v: wrap(u) / v, x, y)
+        where = kw.get("where", True)
+        out = kw.get("out", a[0] if a else None)
+        if where is True or (isinstance(where, (bool, _np.bool_)) and where):
+            return res
+        # numpy semantics of `where=`: the quotient where the mask holds, the entries of `out` elsewhere
+        if is_sym(where):
+            where = _forked_bools(where)
+        if out is None:
+            raise Unsupported("np.divide(where=...) without out: entries outside the mask are uninitialised")
+        res = _np.asarray(res, dtype=object)
+        w = _np.broadcast_to(_np.asarray(where, dtype=bool), res.shape)
+        o = _np.broadcast_to(_np.asarray(out, dtype=object), res.shape)
+        mixed = _np.empty(res.shape, dtype=object)
+        for i in _np.ndindex(*res.shape):
+            mixed[i] = res[i] if w[i] else o[i]
+        return mixed if mixed.ndim else mixed[()]
     return _np.divide(x, y, *a, **kw)
 
 
